@@ -78,11 +78,16 @@ void harness(void) {
                                           ms[0].a.encodingMeta.forMeta.offsetWidth == ms[1].a.encodingMeta.forMeta.offsetWidth &&
                                           ms[0].a.encodingMeta.forMeta.count == ms[1].a.encodingMeta.forMeta.count);
 #endif
-    /* decode side: equal encoded bytes, different residue */
-    for (unsigned i = 0; i < BUF; i++)
-        out[1][i] = out[0][i];
-    size_t d0 = varintAdaptiveDecode(out[0], dec[0], N, &ms[0].a);
-    size_t d1 = varintAdaptiveDecode(out[1], dec[1], N, &ms[1].a);
+    /* decode side: equal encoded bytes, different residue.  The header byte is asserted and then handed over as a
+     * literal so that symbolic execution follows one arm of the decoder's dispatch. */
+    EQ("adaptive.header_byte", w[0] == 0 || out[0][0] == (CODEC - 20));
+    VP_ASSUME(w[0] != 0 && out[0][0] == (CODEC - 20));
+    uint8_t e0[BUF], e1[BUF];
+    e0[0] = e1[0] = (CODEC - 20);
+    for (unsigned i = 1; i < BUF; i++)
+        e0[i] = e1[i] = out[0][i];
+    size_t d0 = varintAdaptiveDecode(e0, dec[0], N, &ms[0].a);
+    size_t d1 = varintAdaptiveDecode(e1, dec[1], N, &ms[1].a);
     EQ("adaptive.decode.count", d0 == d1);
     for (unsigned i = 0; i < N; i++)
         if (i < d0)
